@@ -48,6 +48,14 @@ CLAIMS = {
   text="Static analysis of ListParts/ListMultipartUploads (in-memory uploader + handlers) on all paths: listed PartNumber and NextPartNumberMarker are indices into the unsliced parts slice and Size/ETag come from that slot; all compiler-reported bounds sites of the uploader discharged; truncation always sets the continuation markers on the same path; the upload map and the per-key index are written only by add/remove, both in step, and the index never keeps an empty slice; uploads are listed only under a positive ungrouped prefix match from the iterated index entry and counted against the limit; every access to uploader state holds uploader.mu (static lockset); max-uploads/max-parts/marker clamped and passed on.",
   note="trusted: go/ssa, gc prove pass (bounds list), VTA call graph for the lockset. Not decided: exactly-once across pages for uploads, prefix grouping semantics, initiation-time order.",
   tech="provenance slices + dominance, bounds-obligation discharge, static lockset restricted to uploader state", ref="DESIGN.md §4 C14"),
+ "C03": dict(
+  text="Static analysis of listing membership and field provenance in all four backends on all paths: every Add/AddPrefix is reached only after a positive prefix test of the very key being added, on the right grouped/not-grouped (directory/file) arm, never for delete-marked data, with the iterated key; ETag and Size come from the same stored record as the Key; the two fs backends' listing helpers agree argument by argument (sibling cross-check); AddPrefix de-duplicates; a listing loop passes over a key only for the admissible reasons; deleted nested keys leave no directory behind. Order and Prefix.Match semantics are not decided.",
+  note="trusted: go/ssa, may-flow provenance slices. Not decided: ascending byte order (false today on fs without delimiter), semantics of Prefix.Match, other delimiters.",
+  tech="guard dominance + provenance slices + sibling leaf-set comparison + loop must-pass-through (silent-skip search)", ref="DESIGN.md §4 C03"),
+ "C04": dict(
+  text="Static analysis of object-listing pagination on all paths: every listed entry passes the counter and the cnt>=MaxKeys test before the next one and nothing is listed after the bound; IsTruncated is only set together with NextMarker = last examined key, from which the handler derives the V2 token / V1 marker; the token is encoded and decoded with the same base64 alphabet and decode errors answer InvalidToken; the marker entry is skipped after Seek; non-paginating backends refuse a non-empty page before touching their store and the handler's retry/refusal protocol is exact; max-keys clamped, all three marker sources wired.",
+  note="trusted: go/ssa. Not decided: completeness and strict ascent across pages, CommonPrefix once across pages (false today), termination.",
+  tech="SSA reaches-avoiding (must-pass-through), guard dominance, constant/global identity (codec agreement), provenance slices", ref="DESIGN.md §4 C04"),
 }
 
 NOT_APPLICABLE = {
